@@ -31,7 +31,7 @@ def run(ctx):
     rng, drv = ctx.rng, ctx.drv
     from harness import degen
     degen.evaluate(ctx, "measure")      # deterministic non-transversal corpus (findings K2-*)
-    n = 16 if ctx.quick else 2000
+    n = 16 if ctx.quick else 300
     for it in range(n):
         if it % 2 == 0:
             if it % 4 == 0:
@@ -50,6 +50,14 @@ def run(ctx):
             desc = {"A": core.jsonable(da), "B": core.jsonable(db)}
             key = (repr(da), repr(db))
         ctx.sample(core.jsonable(desc), limit=2)
+        if it % 3 == 1:
+            # both operands are queried, transformed in place by the same exact orientation-preserving map and queried again
+            from harness import shapes as shp
+            A, _d, _T, seq = shp.warm_transform(rng, A, ("S", [(0, 0), (1, 0), (0, 1)]), others=(B,), force_reflect=True)
+            desc = {**desc, "in-place": core.jsonable(seq)}
+            ctx.count("warm-transformed")
+        import copy as _copy
+        A0, B0 = _copy.deepcopy(A), _copy.deepcopy(B)      # the operators refine their operands in place: measure the operands as given
         try:
             with impl.time_limit(180):
                 U, I, D, X, N = A | B, A & B, A - B, A ^ B, ~A
@@ -60,7 +68,8 @@ def run(ctx):
         ctx.case("identities", key, nontrivial=impl.kind(I) != "Empty")
         ctx.count("kinds:" + impl.kind(A)[0] + impl.kind(B)[0])
         for (a, b) in MOMS:
-            ma, mb, mu, mi, md, mx, mn = (m(S, a, b) for S in (A, B, U, I, D, X, N))
+            ma, mb, mu, mi, md, mx, mn = (m(S, a, b) for S in (A0, B0, U, I, D, X, N))
+            ctx.check(m(A, a, b) == ma and m(B, a, b) == mb, "an operator changed a moment of its operand", {**desc, "a": a, "b": b})
             mo = {"a": a, "b": b}
             ctx.check(all(core.isfrac(v) for v in (ma, mb, mu, mi, md, mx, mn)), "moment is not an exact rational", {**desc, **mo})
             ctx.check(mu + mi == ma + mb, "m(A|B) + m(A&B) != m(A) + m(B)", {**desc, **mo}, ma + mb, mu + mi)
@@ -74,9 +83,10 @@ def run(ctx):
             ctx.check(cert, "boundary pieces of A|B and A&B are not a rearrangement of the operands' pieces", desc)
     # ---- curved pairs: deterministic corpus (1e-5 relative); K3-* entries are catalogued findings
     from harness import curved
-    names = list(curved.PAIRS) if not ctx.quick else ["cs-1", "cs-3", "cs-5", "K3-wrong-1", "K3-raises-1"]
+    names = list(curved.PAIRS) if not ctx.quick else ["cs-1", "cs-5", "c4-1", "c4-2", "K3-wrong-1", "K3-raises-1"]
     for name in names:
         C, O = curved.build(name)
+        C0, O0 = curved.build(name)             # measured as given (the operators refine C and O in place)
         desc = {"pair": name, "params": curved.PAIRS[name]}
         try:
             with impl.time_limit(180):
@@ -87,8 +97,9 @@ def run(ctx):
             ctx.fail("curved pair: operator raised", desc, got=repr(ex), sig=curved.sig(name)); continue
         ctx.case("curved-identities", name)
         for (a, b) in MOMS:
-            vals = [float(m(S, a, b)) for S in (C, O, U, I, D, X)]
+            vals = [float(m(S, a, b)) for S in (C0, O0, U, I, D, X)]
             mc, mo_, mu, mi, md, mx = vals
             tol = 1e-5 * max(1.0, max(abs(v) for v in vals))
             ctx.check(abs(mu + mi - mc - mo_) <= tol and abs(md - (mc - mi)) <= tol and abs(mx - (mu - mi)) <= tol,
                       "curved pair: inclusion-exclusion beyond 1e-5", {**desc, "a": a, "b": b}, None, vals, sig=curved.sig(name))
+            ctx.check(abs(float(m(C, a, b)) - mc) <= tol, "curved pair: an operator changed a moment of its operand beyond 1e-5", {**desc, "a": a, "b": b}, mc, float(m(C, a, b)), sig=curved.sig(name))
